@@ -210,3 +210,5 @@ def run(ctx):
                 if not (left.endswith(".microseconds") or left.endswith(".microsecond")):
                     bad.append((f, n))
     ctx.check("C16.R6", "true division `/` is applied only to sub-second fields (< 10**6, exact in a float)", not bad, bad[0][0].where(bad[0][1]) if bad else lwm.relpath, f"{bad[0][0].qualname}: {norm(bad[0][1])}" if bad else "", "a true division of a large quantity (timedelta or total microseconds) passes through a 53-bit float: instants far from 1970 are stored off by a microsecond or more")
+
+    ctx.borrow("C10", {"C10.R2": "C16.R7"}, "logical values inside unions (and every value under validator=True) are written only if validate accepts them: a verdict other than the type validator's on the prepared value narrows the domain that can be stored", only=lambda o: "_validate:" in o.get("where", "") or o.get("instance", "").startswith("_validate"))
